@@ -106,6 +106,11 @@ def get (k : Key) (s : St) : Except Err (Option Val) :=
         | none => .ok none
         | some b => .ok (deser s k b)
 
+/-- a read while the value store is unreachable (its directory moved away for the duration of the call): every store
+object looks missing; the state itself is untouched.  Several backends (processes) may share one database and one
+store: they are handles on the same `St`, the model has no per-process state. -/
+def getAway (k : Key) (s : St) : Except Err (Option Val) := get k { s with store := s.store.map fun _ => [] }
+
 /-! mutations of the environment -/
 def dropStore (k : Key) (s : St) : St := { s with store := s.store.map (dropKey k) }
 def dropFc (f : Bytes) (s : St) : St := { s with fc := dropKey f s.fc }
